@@ -1660,31 +1660,29 @@ def analyse_main(db, rep):
 
 
 class SelprepHooks(SendHooks):
-    """X_selprep(..., &wakeup) over every combination of its inputs: the final wake-up time"""
+    """X_selprep(..., &wakeup) for one combination of its inputs (queue contents, job and delivery slots, open passes,
+    flags are all fixed by the scenario, whether or not the function looks at them): the final wake-up time"""
     DT = {'G:pqchan[0]': 60, 'G:pqchan[1]': 70, 'G:pqfail': 80, 'G:pqdone': 90}
-    SPLIT = {'G:tododir': (0, ('&', 'DIR')), 'G:flagcleanup': (0, 1), 'G:flagexitasap': (0, 1), 'G:nexttodorun': (50, 150),
-             'G:cleanuptime': (40, 140), 'G:pass[0].id': (0, 5), 'G:pass[1].id': (0, 6)}
     precise = frozenset(['L:c', 'L:j', 'L:i'])
 
-    def __init__(self, w0):
+    def __init__(self, w0, scen):
         super().__init__()
         self.w0 = w0
+        self.scen = scen
         self.rows = []
 
     def tracked_global(self, path):
-        return path.startswith('$') or path == 'WK' or path in self.SPLIT or path.startswith('G:pass[')
+        return True
 
-    def materialize_split(self, E, path):
-        if path in self.SPLIT:
-            return [fs(v) for v in self.SPLIT[path]]
-        return None
+    def precise_arith(self, path):
+        return True
 
     def prim_del_avail(self, E, x, args):
         c = g1v(args[0])
-        return [Outcome(ret=fs(0), sets={'$avail:%s' % c: fs(0)}), Outcome(ret=fs(1), sets={'$avail:%s' % c: fs(1)})]
+        return [Outcome(ret=fs(self.scen['avail'][c] if c in (0, 1) else 0))]
 
     def prim_job_avail(self, E, x, args):
-        return [Outcome(ret=fs(0), sets={'$job': fs(0)}), Outcome(ret=fs(1), sets={'$job': fs(1)})]
+        return [Outcome(ret=fs(self.scen['job']))]
 
     def prim_trigger_selprep(self, E, x, args):
         return [Outcome(ret=TOP)]
@@ -1694,92 +1692,110 @@ class SelprepHooks(SendHooks):
         pe = g1v(args[1])
         if not (isinstance(q, tuple) and q[0] == '&' and q[1] in self.DT and isinstance(pe, tuple) and pe[0] == '&'):
             raise AnalysisBroken('selprep: prioq_min() on an unknown queue %s' % (q,))
-        prev = g1(E, '$q:' + q[1])
-        if prev is not None:        # asked twice on one path: same answer
-            return [Outcome(ret=fs(1 if prev else 0), sets={pe[1] + '.dt': fs(self.DT[q[1]])} if prev else {})]
-        return [Outcome(ret=fs(0), sets={'$q:' + q[1]: fs(0)}),
-                Outcome(ret=fs(1), sets={'$q:' + q[1]: fs(1), pe[1] + '.dt': fs(self.DT[q[1]])})]
+        if self.scen['q'][q[1]]:
+            return [Outcome(ret=fs(1), sets={pe[1] + '.dt': fs(self.DT[q[1]])})]
+        return [Outcome(ret=fs(0))]
 
     def on_return(self, E, fn, val):
         if fn.name != self.entry:
             return
-        row = {k: g1(E, k) for k in list(self.SPLIT) + ['$job', '$avail:0', '$avail:1'] + ['$q:' + q for q in self.DT]}
-        self.rows.append((row, g1(E, 'WK'), E.trace.list()))
+        self.rows.append((g1(E, 'WK'), E.trace.list()))
 
 
 def g1v(v):
     return next(iter(v)) if v is not TOP and v is not None and len(v) == 1 else None
 
 
-def selprep_expected(fname, row, w0):
-    """the documented wake-up time; None if the row cannot decide (an input was never consulted although it matters)"""
+def selprep_expected(fname, sc, w0):
+    """the documented wake-up time for a scenario"""
     m = w0
     if fname == 'pass_selprep':
-        if row['G:flagexitasap']:
+        if sc['exit']:
             return w0
         for c in (0, 1):
-            if row['G:pass[%d].id' % c] and row['$avail:%d' % c]:
+            if sc['pass'][c] and sc['avail'][c]:
                 return 0
-        if row['$job']:
+        if sc['job']:
             for c in (0, 1):
-                if not row['G:pass[%d].id' % c] and row['$q:G:pqchan[%d]' % c]:
+                if not sc['pass'][c] and sc['q']['G:pqchan[%d]' % c]:
                     m = min(m, SelprepHooks.DT['G:pqchan[%d]' % c])
         for q in ('G:pqfail', 'G:pqdone'):
-            if row['$q:' + q]:
+            if sc['q'][q]:
                 m = min(m, SelprepHooks.DT[q])
         return m
     if fname == 'todo_selprep':
-        if row['G:flagexitasap']:
+        if sc['exit']:
             return w0
-        if row['G:tododir']:
+        if sc['tododir']:
             return 0
-        return min(m, row['G:nexttodorun']) if row['G:nexttodorun'] is not None else None
+        return min(m, sc['nexttodorun'])
     if fname == 'cleanup_selprep':
-        if row['G:flagcleanup']:
+        if sc['cleanup']:
             return 0
-        return min(m, row['G:cleanuptime']) if row['G:cleanuptime'] is not None else None
+        return min(m, sc['cleanuptime'])
 
 
-def selprep_sites(db):
-    """the wake-up time each X_selprep leaves behind, for every combination of its inputs (C16 timeout computation)"""
+def selprep_scenarios(fname):
+    import itertools
+    if fname == 'pass_selprep':
+        for ex, p0, p1, job, a0, a1, q0, q1, qf, qd in itertools.product((0, 1), (0, 5), (0, 6), (0, 1), (0, 1), (0, 1), (0, 1), (0, 1), (0, 1), (0, 1)):
+            if ex and (p0 or p1 or job or a0 or a1 or q0 or q1 or qf):
+                continue        # with flagexitasap one representative is enough
+            yield {'exit': ex, 'pass': (p0, p1), 'job': job, 'avail': (a0, a1), 'q': {'G:pqchan[0]': q0, 'G:pqchan[1]': q1, 'G:pqfail': qf, 'G:pqdone': qd}}
+    elif fname == 'todo_selprep':
+        for ex, td, nt in itertools.product((0, 1), (0, 1), (50, 150)):
+            yield {'exit': ex, 'tododir': td, 'nexttodorun': nt, 'job': 0, 'avail': (0, 0), 'q': dict.fromkeys(SelprepHooks.DT, 0), 'pass': (0, 0)}
+    else:
+        for cl, ct in itertools.product((0, 1), (40, 140)):
+            yield {'exit': 0, 'cleanup': cl, 'cleanuptime': ct, 'job': 0, 'avail': (0, 0), 'q': dict.fromkeys(SelprepHooks.DT, 0), 'pass': (0, 0)}
+
+
+def selprep_tables(db, names=('pass_selprep', 'todo_selprep', 'cleanup_selprep')):
+    """the wake-up time each X_selprep leaves behind, for every combination of its inputs"""
     prog = db.program('qmail-send')
     out = {}
-    consulted = set()
-    for fname in ('pass_selprep', 'todo_selprep', 'cleanup_selprep'):
+    why_ = {'pass_selprep': 'zero only with an open pass AND del_avail(c) (otherwise select() returns at once although pass_dochan can do nothing: busy loop); else the minimum of the due times of pqchan[c] (every channel without an open pass, a job slot free), pqfail and pqdone',
+            'todo_selprep': 'zero while a todo scan is open, else min(wakeup, nexttodorun)',
+            'cleanup_selprep': 'zero while a clean-up scan is in progress, else min(wakeup, cleanuptime)'}
+    for fname in names:
         fn = prog.fn(fname, 'qmail-send.c')
         nrows = 0
         bad = None
-        for w0 in (100, 10):
-            H = SelprepHooks(w0)
-            H.entry = fname
-            eng = Engine(db, prog, H)
-            fid = eng.frame_id(fn)
-            store = {'WK': fs(w0)}
-            # the wake-up pointer is the parameter of type datetime_sec *: bind every pointer parameter that is not an fd_set/int count
-            for p_ in fn.params:
-                if 'datetime_sec' in fn.param_types.get(p_, ''):
-                    store['%s::%s' % (fid, p_)] = fs(('&', 'WK'))
-            eng.run(fn, store)
-            for row, wkv, tr in H.rows:
+        for sc in selprep_scenarios(fname):
+            for w0 in ((100, 10) if fname != 'pass_selprep' else (100,)):
+                H = SelprepHooks(w0, sc)
+                H.entry = fname
+                eng = Engine(db, prog, H)
+                fid = eng.frame_id(fn)
+                store = {'WK': fs(w0), 'G:flagexitasap': fs(sc['exit']), 'G:pass[0].id': fs(sc['pass'][0]), 'G:pass[1].id': fs(sc['pass'][1]),
+                         'G:tododir': fs(('&', 'DIR')) if sc.get('tododir') else fs(0), 'G:nexttodorun': fs(sc.get('nexttodorun', 0)),
+                         'G:flagcleanup': fs(sc.get('cleanup', 0)), 'G:cleanuptime': fs(sc.get('cleanuptime', 0))}
+                for p_ in fn.params:
+                    if 'datetime_sec' in fn.param_types.get(p_, ''):
+                        store['%s::%s' % (fid, p_)] = fs(('&', 'WK'))
+                eng.run(fn, store)
+                exp = selprep_expected(fname, sc, w0)
+                if len(H.rows) != 1:
+                    raise AnalysisBroken('%s: %d ends for one scenario' % (fname, len(H.rows)))
                 nrows += 1
-                for k, v in row.items():
-                    if v is not None:
-                        consulted.add((fname, k))
-                exp = selprep_expected(fname, row, w0)
-                if exp is None or wkv != exp:
-                    if bad is None:
-                        bad = ({k: v for k, v in row.items() if v is not None}, wkv, exp, tr)
+                wkv, tr = H.rows[0]
+                if wkv != exp and bad is None:
+                    shown = {k: v for k, v in sc.items() if v not in (0, (0, 0))}
+                    bad = (shown, wkv, exp, tr)
         if nrows < 4:
             raise AnalysisBroken('%s: only %d input combinations explored' % (fname, nrows))
-        why = {'pass_selprep': 'zero only with an open pass AND del_avail(c) (otherwise select() returns at once although pass_dochan can do nothing: busy loop); else the minimum of the due times of pqchan[c] (idle channels, a job slot free), pqfail and pqdone',
-               'todo_selprep': 'zero while a todo scan is open, else min(wakeup, nexttodorun)',
-               'cleanup_selprep': 'zero while a clean-up scan is in progress, else min(wakeup, cleanuptime)'}[fname]
         out['selprep:%s:wakeup-table' % fname] = (bad is None, 'qmail-send.c:' + fname,
-                                                 ('%d input combinations; %s' % (nrows, why)) if bad is None else
-                                                 ('inputs %s leave wakeup=%s, documented %s; %s' % (bad[0], bad[1], bad[2], why)), bad[3] if bad else [])
-    want = {('pass_selprep', '$q:G:pqchan[0]'), ('pass_selprep', '$q:G:pqchan[1]'), ('pass_selprep', '$q:G:pqfail'), ('pass_selprep', '$q:G:pqdone'),
-            ('todo_selprep', 'G:nexttodorun'), ('cleanup_selprep', 'G:cleanuptime')}
-    out['selprep:every-due-time-source-lowers-the-wakeup'] = (want <= consulted, 'qmail-send.c', 'due-time sources consulted: %s' % sorted(k for _, k in consulted & want), [])
+                                                 ('%d input combinations; %s' % (nrows, why_[fname])) if bad is None else
+                                                 ('inputs %s (wake-up time on entry %s): wakeup=%s, documented %s; %s' % (bad[0], 100, bad[1], bad[2], why_[fname])), bad[3] if bad else [])
+    return out
+
+
+def selprep_sites(db):
+    """C16 timeout computation: the three tables and main()'s use of the result"""
+    prog = db.program('qmail-send')
+    out = selprep_tables(db)
+    out['selprep:every-due-time-source-lowers-the-wakeup'] = (all(out['selprep:%s:wakeup-table' % f][0] for f in ('pass_selprep', 'todo_selprep', 'cleanup_selprep')), 'qmail-send.c',
+                                                            'decided by the three tables: every queue, nexttodorun and cleanuptime is an input of a scenario whose documented result depends on it', [])
     # main: the select() timeout for every wake-up time the selprep functions can leave behind
     fuzz = db.unit('qmail-send.c').macro_int('SLEEP_FUZZ')
     forever = db.unit('qmail-send.c').macro_int('SLEEP_FOREVER')
